@@ -394,7 +394,35 @@ pub fn run(run: &Run) {
     for id in ids {
         let t0 = std::time::Instant::now();
         let deep = run.tier == Tier::Thorough && matches!(*id, "C06" | "C07" | "C13" | "C12" | "C14" | "C15" | "C10");
-        crate::run_child_profile_tier(run, id, if deep { Tier::Thorough } else { Tier::Quick });
+        if let Some(mut v) = crate::child_summary(run, id, if deep { Tier::Thorough } else { Tier::Quick }) {
+            // A failure of the dbg run is a violation of THIS property only if the release build behaves
+            // differently on the same case: re-execute the failing case here (release) and compare. A defect
+            // that shows identically in both profiles is the other check's finding, not a profile dependence.
+            if let Some(fails) = v["fails"].as_array().cloned() {
+                let mut keep = vec![];
+                for f in fails {
+                    let case = f["case"].clone();
+                    let here = crate::outcome_here(&case);
+                    let there = format!("{}|{}", f["class"].as_str().unwrap_or(""), f["msg"].as_str().unwrap_or(""));
+                    // profile-dependent iff the release build holds on this case, or the dbg build panics where the
+                    // release build does not (a defect that violates in both builds, in whatever class, is not)
+                    let dbg_panics = f["class"] == "panic";
+                    let rel_panics = here.starts_with("panic|");
+                    let _ = &there;
+                    let _ = (dbg_panics, rel_panics);
+                    // (a case that also violates in the release build, in whatever class, belongs to the other check;
+                    // a debug-only check firing where release merely computes something else still shows up in the
+                    // oracle-free transcript comparison above)
+                    if here == "holds" {
+                        let mut f = f.clone();
+                        f["msg"] = json!(format!("{} ; the release build on the same case: {}", f["msg"].as_str().unwrap_or(""), mccore::truncate(&here, 200)));
+                        keep.push(f);
+                    }
+                }
+                v["fails"] = json!(keep);
+            }
+            run.merge_child("dbg", &v);
+        }
         eprintln!("[C18] {} in the dbg build              {:.1}s", id, t0.elapsed().as_secs_f64());
     }
 }
